@@ -36,9 +36,15 @@ ASSUMPTIONS = [
     'scipy.stats norm / lognorm / uniform / triang / logistic and scipy.integrate.quad are the textbook '
     'functions; 1e-8 relative (+1e-13 of the peak density for the two bounded densities)',
     'shift parameters of a segmentation are named <parameter>_<category> (pinned by '
-    'tests/functions/test_segmentation.py); category names are unique across the segmenting variables',
-    'thresholds strictly increasing, sigma > 0, a < c < b, nest parameters >= 1, nests disjoint: the '
-    'documented input domains; every generated input is valid, so any exception is a failure',
+    'tests/functions/test_segmentation.py); category names are unique across the segmenting variables; the '
+    'mapping is "values of the variable -> name of a category" (DiscreteSegmentationTuple docstring), so several '
+    'values may share a category, and the segment of an observation is the category of its value',
+    'thresholds strictly increasing, sigma > 0 for the densities, a < c < b, nest parameters >= 1, nests disjoint: '
+    'the documented input domains; every generated input is valid, so any exception is a failure',
+    'loglikelihoodregression: its docstring states -(y-m)^2/(2 sigma^2) - log(sigma^2)/2 - log(2 pi)/2, which depends '
+    'on sigma through sigma^2 only and is finite for every residual, so sigma != 0 of either sign and residuals of '
+    'hundreds of sigma are in its domain (an unbounded scale parameter does take negative values during an '
+    'estimation); likelihoodregression ((1/sigma) phi((y-m)/sigma)) is judged as a density for sigma > 0 only',
 ]
 BUDGETS = dict(quick=dict(shards=8), thorough=dict(shards=16))
 
@@ -905,15 +911,27 @@ def judge_integral(spec) -> Outcome:
 # ---- regression likelihood
 
 
+def _residuals():
+    """Standardised residuals (y - m)/sigma: around zero, the usual range, and far tails up to a thousand sigma
+    (a poor starting point or an outlier; the closed form is a finite quadratic there)."""
+    sign = st.sampled_from([1.0, -1.0])
+    far = st.tuples(sign, st.floats(0, 3, allow_nan=False, allow_subnormal=False)).map(lambda t: t[0] * 10.0 ** t[1])
+    return st.one_of(_dy(-8, 8), st.floats(-30, 30, allow_nan=False, allow_subnormal=False), st.just(0.0),
+                     st.floats(-1000, 1000, allow_nan=False, allow_subnormal=False), far, _dy(-400, 400, 2),
+                     st.sampled_from([37.0, 38.5, 39.0, -39.0, 40.0, -45.0, 100.0, -250.0, 1000.0]))
+
+
 @st.composite
 def strat_regression(draw, tier):
     n = draw(st.integers(1, 6))
     sigma = draw(st.one_of(_dy(0.25, 5), st.floats(0.05, 20, allow_nan=False, allow_subnormal=False), st.just(1.0)))
+    # the documented closed form involves sigma only through sigma^2: a scale of either sign is in its domain
+    sigma *= draw(st.sampled_from([1.0, 1.0, -1.0]))
     model_form = draw(st.sampled_from(['Variable', 'Numeric', 'linear']))
     ms = draw(st.lists(_num(-10, 10), min_size=n, max_size=n))
     if model_form == 'Numeric':
         ms = [ms[0]] * n
-    zs = draw(st.lists(st.one_of(_dy(-8, 8), st.floats(-30, 30, allow_nan=False, allow_subnormal=False), st.just(0.0)), min_size=n, max_size=n))
+    zs = draw(st.lists(_residuals(), min_size=n, max_size=n))
     return dict(m=ms, y=[m + z * sigma for m, z in zip(ms, zs)], sigma=sigma, model_form=model_form,
                 coef=[draw(_dy(-3, 3)), draw(_dy(-3, 3).filter(lambda v: v != 0))],
                 sigma_form=draw(st.sampled_from(['Beta', 'Beta_dict', 'Numeric', 'Variable'])))
@@ -947,41 +965,62 @@ def _obs_regression(spec, res):
     res['model_inputs'] = columns.get('z')
     res['stage'] = 'loglikelihoodregression'
     res['log'] = _vals(bll.loglikelihoodregression(bex.Variable('y'), model, sigma), database, betas or None)
-    res['stage'] = 'likelihoodregression'
-    res['lik'] = _vals(bll.likelihoodregression(bex.Variable('y'), model, sigma), database, betas or None)
+    if spec['sigma'] > 0:
+        # (1/sigma) phi((y-m)/sigma) is a density for a positive scale only
+        res['stage'] = 'likelihoodregression'
+        res['lik'] = _vals(bll.likelihoodregression(bex.Variable('y'), model, sigma), database, betas or None)
+
+
+HALF_LOG_2PI = 0.5 * math.log(2.0 * math.pi)
+UNDERFLOW_Z = 38.6  # exp(-z^2/2) is zero in double precision beyond
+
+
+def regression_ref(y, m, s):
+    """Docstring of loglikelihoodregression: -((y-m)^2 / (2 sigma^2)) - log(sigma^2)/2 - log(2 pi)/2, and the
+    tolerance: 1e-9 relative to the size of its terms."""
+    z = (y - m) / s
+    ref = -(z * z) / 2.0 - 0.5 * math.log(s * s) - HALF_LOG_2PI
+    return z, ref, 1e-9 * (z * z / 2 + abs(math.log(abs(s))) + 1.0)
 
 
 def judge_regression(spec) -> Outcome:
     out = Outcome()
     s = spec['sigma']
     out.nontrivial = s != 1.0
-    out.evaluations = 2 * len(spec['y'])
-    out.classes += [f'regression:model={spec["model_form"]}', f'regression:sigma={spec["sigma_form"]}']
+    out.evaluations = (2 if s > 0 else 1) * len(spec['y'])
+    out.classes += [f'regression:model={spec["model_form"]}', f'regression:sigma={spec["sigma_form"]}',
+                    'regression:sigma>0' if s > 0 else 'regression:sigma<0']
     r = _run(_obs_regression, spec)
     if not r['ok'] or 'exc' in r['value']:
         e = r['value']['exc'] if r['ok'] else dict(type=r['exc_type'], msg=r['exc_msg'], stage='child')
-        out.fail(f'{e["stage"]}:raises:{e["type"]}', f'regression likelihood raised {e["type"]}: {e["msg"][:200]}')
+        out.fail(f'{e["stage"]}:raises:{e["type"]}',
+                 f'regression likelihood (sigma={s!r} as {spec["sigma_form"]}) raised {e["type"]}: {e["msg"][:200]}')
         return out
     obs = r['value']
+    regions = set()
     for j, y in enumerate(spec['y']):
         if spec['model_form'] == 'linear':
             a, b = spec['coef']
             m = a + b * obs['model_inputs'][j]
         else:
             m = spec['m'][j]
-        z = (y - m) / s
-        ref = float(stats.norm.logpdf(y, loc=m, scale=s))
-        tol = 1e-9 * (z * z / 2 + abs(math.log(s)) + 1.0)
+        z, ref, tol = regression_ref(y, m, s)
+        region = ('centre' if abs(z) <= 8 else 'tail' if abs(z) <= UNDERFLOW_Z else
+                  'density_underflows' if abs(z) <= 100 else 'beyond_100_sigma')
+        regions.add(f'regression:residual={region}')
         if not _close(obs['log'][j], ref, tol):
-            out.fail('loglikelihoodregression:value',
-                     f'loglikelihoodregression(y={y!r}, m={m!r}, sigma={s!r}) = {obs["log"][j]!r}; normal log '
-                     f'density {ref!r}')
+            sign = 'negative_sigma' if s < 0 else 'positive_sigma'
+            out.fail(f'loglikelihoodregression:value:{sign}:{region}',
+                     f'loglikelihoodregression(y={y!r}, m={m!r}, sigma={s!r}) = {obs["log"][j]!r}; documented '
+                     f'-(y-m)^2/(2 sigma^2) - log(sigma^2)/2 - log(2 pi)/2 = {ref!r} (residual {z:.4g} sigma)')
             break
-        pdf = float(stats.norm.pdf(y, loc=m, scale=s))
-        if not _close(obs['lik'][j], pdf, 1e-8 * pdf + 1e-300 + tol * pdf):
-            out.fail('likelihoodregression:value',
-                     f'likelihoodregression(y={y!r}, m={m!r}, sigma={s!r}) = {obs["lik"][j]!r}; normal density {pdf!r}')
-            break
+        if s > 0:
+            pdf = float(stats.norm.pdf(y, loc=m, scale=s))
+            if not _close(obs['lik'][j], pdf, 1e-8 * pdf + 1e-300 + tol * pdf):
+                out.fail('likelihoodregression:value',
+                         f'likelihoodregression(y={y!r}, m={m!r}, sigma={s!r}) = {obs["lik"][j]!r}; normal density {pdf!r}')
+                break
+    out.classes += sorted(regions)
     return out
 
 
@@ -995,6 +1034,16 @@ SEG_CATEGORIES = ['low', 'mid', 'high', 'male', 'female', '1st', '2nd', 'GA', 'n
 SEG_PREFIXES = ['segmented', 'seg', 'the_seg']
 
 
+def seg_category_of(seg):
+    """value of the variable -> category, from the list of [value, category] pairs of the spec."""
+    return {k: c for k, c in seg['mapping']}
+
+
+def seg_categories(seg):
+    """Distinct categories of a segmentation, in order of first appearance in the mapping."""
+    return list(dict.fromkeys(c for _, c in seg['mapping']))
+
+
 @st.composite
 def strat_segmentation(draw, tier):
     n_var = draw(st.sampled_from([1, 1, 2, 2, 3]))
@@ -1003,15 +1052,34 @@ def strat_segmentation(draw, tier):
     segs, pos = [], 0
     for v in variables:
         n_cat = draw(st.integers(2, 4))
-        keys = draw(st.lists(st.integers(-3, 60), min_size=n_cat, max_size=n_cat, unique=True))
         names = list(cats[pos:pos + n_cat])
         pos += n_cat
+        # number of values of the variable mapped to each category: one to one, or many to one
+        if draw(st.sampled_from([False, True, True])):
+            sizes = draw(st.lists(st.sampled_from([1, 1, 2, 2, 3]), min_size=n_cat, max_size=n_cat))
+        else:
+            sizes = [1] * n_cat
+        keys = draw(st.lists(st.integers(-3, 60), min_size=sum(sizes), max_size=sum(sizes), unique=True))
+        if draw(st.booleans()):
+            keys = sorted(keys)  # merged neighbouring classes, e.g. {1: low, 2: low, 3: mid, ...}
+        entries, used = [], 0
+        for c, size in zip(names, sizes):
+            entries += [[k, c] for k in keys[used:used + size]]
+            used += size
+        if draw(st.sampled_from([False, True, True])):
+            entries = list(draw(st.permutations(entries)))  # the values of a category need not be listed together
         reference = draw(st.one_of(st.none(), st.sampled_from(names)))
         segs.append(dict(var=v, var_form=draw(st.sampled_from(['name', 'Variable'])),
-                         mapping=[[k, c] for k, c in zip(keys, names)], reference=reference,
-                         shifts=draw(st.lists(_dy(-4, 4, 8), min_size=n_cat, max_size=n_cat))))
-    n_rows = draw(st.integers(2, 7))
-    rows = [[draw(st.sampled_from([k for k, _ in s['mapping']])) for s in segs] for _ in range(n_rows)]
+                         mapping=[[k, c] for k, c in entries], reference=reference,
+                         shifts={c: draw(_dy(-4, 4, 8)) for c in names}))
+    # every mapped value of every variable is observed at least once
+    n_rows = max(len(s['mapping']) for s in segs) + draw(st.integers(0, 4))
+    columns = []
+    for s in segs:
+        keys = [k for k, _ in s['mapping']]
+        column = keys + [draw(st.sampled_from(keys)) for _ in range(n_rows - len(keys))]
+        columns.append(list(draw(st.permutations(column))))
+    rows = [[column[i] for column in columns] for i in range(n_rows)]
     bounded = draw(st.booleans())
     init = draw(_dy(-2, 2, 8))
     return dict(beta=draw(st.sampled_from(SEG_BETAS)), init=init, lb=(init - 3.0) if bounded else None,
@@ -1041,7 +1109,7 @@ def _obs_segmentation(spec, res):
     res['parameters'] = _beta_description(expr)
     values = {spec['beta']: spec['ref_value']}
     for s in spec['segs']:
-        for (k, c), v in zip(s['mapping'], s['shifts']):
+        for c, v in s['shifts'].items():
             values[f'{spec["beta"]}_{c}'] = v
     values = {k: v for k, v in values.items() if k in res['parameters']}
     res['stage'] = 'evaluate'
@@ -1073,14 +1141,31 @@ def judge_segmentation(spec) -> Outcome:
     out = Outcome()
     name, segs = spec['beta'], spec['segs']
     explicit_other = any(s['reference'] is not None and s['reference'] != s['mapping'][0][1] for s in segs)
-    out.nontrivial = len(segs) >= 2 or explicit_other
+    many_to_one = any(len(seg_categories(s)) < len(s['mapping']) for s in segs)
+    out.nontrivial = len(segs) >= 2 or explicit_other or many_to_one
     out.classes += [f'segmentation:variables={len(segs)}', f'segmentation:api={spec["api"]}',
                     'segmentation:bounded' if spec['lb'] is not None else 'segmentation:unbounded']
     out.classes += sorted(set('segmentation:reference=' + ('default' if s['reference'] is None else
                                                            'first' if s['reference'] == s['mapping'][0][1] else 'other')
                               for s in segs))
+    for s in segs:
+        count = {}
+        for _, c in s['mapping']:
+            count[c] = count.get(c, 0) + 1
+        listed = [c for _, c in s['mapping']]
+        scattered = any(listed[i] != listed[i - 1] and listed[i] in listed[:i - 1] for i in range(2, len(listed)))
+        declared = s['reference'] if s['reference'] is not None else listed[0]  # 'arbitrary' is the first one listed
+        out.classes.append('segmentation:mapping=' + ('one_to_one' if max(count.values()) == 1 else 'many_to_one'))
+        if scattered:
+            out.classes.append('segmentation:values_of_a_category_not_listed_together')
+        if count[declared] >= 2:
+            out.classes.append('segmentation:reference_covers_several_values:' +
+                               ('default' if s['reference'] is None else 'explicit'))
+        elif max(count.values()) >= 2:
+            out.classes.append('segmentation:other_category_covers_several_values')
+    out.classes = sorted(set(out.classes))
     text = f'segmentation of {name} by ' + '; '.join(
-        f'{s["var"]}:{dict((k, c) for k, c in s["mapping"])} ref {s["reference"]}' for s in segs)
+        f'{s["var"]}:{seg_category_of(s)} ref {s["reference"]}' for s in segs)
     r = _run(_obs_segmentation, spec)
     if not r['ok'] or 'exc' in r['value']:
         e = r['value']['exc'] if r['ok'] else dict(type=r['exc_type'], msg=r['exc_msg'], stage='child')
@@ -1090,10 +1175,10 @@ def judge_segmentation(spec) -> Outcome:
         return out
     obs = r['value']
     params = obs['parameters']
-    # which category of each variable is the reference
+    # which category of each variable is the reference: the one without a shift parameter
     references = []
     for s in segs:
-        cats = [c for _, c in s['mapping']]
+        cats = seg_categories(s)
         missing = [c for c in cats if f'{name}_{c}' not in params]
         if s['reference'] is not None:
             if missing != [s['reference']]:
@@ -1105,18 +1190,19 @@ def judge_segmentation(spec) -> Outcome:
                                                  f'parameter ({missing}); exactly one reference expected')
             return out
         references.append(missing[0])
-    expected_names = {name} | {f'{name}_{c}' for s, ref in zip(segs, references) for _, c in s['mapping'] if c != ref}
+    expected_names = {name} | {f'{name}_{c}' for s, ref in zip(segs, references) for c in seg_categories(s) if c != ref}
     if set(params) != expected_names:
         out.fail('segmented_beta:parameters', f'{text}: parameters {sorted(params)}, expected {sorted(expected_names)}')
         return out
+    # closed form: every observation of a segment gets the reference value plus the shift of its segment
     ref_vals, init_vals = [], []
     for row in spec['rows']:
         total, n_shift = [spec['ref_value']], 0
         for s, ref, key in zip(segs, references, row):
-            for (k, c), v in zip(s['mapping'], s['shifts']):
-                if k == key and c != ref:
-                    total.append(v)
-                    n_shift += 1
+            c = seg_category_of(s)[key]
+            if c != ref:
+                total.append(s['shifts'][c])
+                n_shift += 1
         ref_vals.append(math.fsum(total))
         init_vals.append(spec['init'] * (1 + n_shift))
     tol = [1e-12 * (1 + abs(spec['ref_value']) + 4 * len(segs))] * len(ref_vals)
@@ -1328,12 +1414,16 @@ SUBCHECKS = [
     SubCheck('regression', strat_regression, judge_regression,
              lambda s: f"loglikelihoodregression(y={s['y']}, m={s['m']} as {s['model_form']}, sigma={s['sigma']} as {s['sigma_form']})",
              dict(quick=400, thorough=12000),
-             'loglikelihoodregression == normal log density, likelihoodregression == normal density; non-trivial '
-             'if sigma != 1'),
+             'residuals from 0 to 1000 sigma, sigma of either sign (0.05 <= |sigma| <= 20): loglikelihoodregression == '
+             'docstring form -(y-m)^2/(2 sigma^2) - log(sigma^2)/2 - log(2 pi)/2 (finite everywhere); for sigma > 0 '
+             'likelihoodregression == normal density; non-trivial if sigma != 1'),
     SubCheck('segmentation', strat_segmentation, judge_segmentation, _render_seg, dict(quick=500, thorough=15000),
-             '1-3 discrete variables x 2-4 categories, reference given or not: value on each row == reference value + '
-             'shifts of the row; exec(segmented_code()) gives the same parameters and values; non-trivial if >= 2 '
-             'variables or a reference other than the first category'),
+             '1-3 discrete variables x 2-4 categories, each category the image of 1-3 values of the variable (one to '
+             'one or many to one, values of a category listed together or not), reference given or not, every mapped '
+             'value observed: one shift parameter per non-reference category, none for the reference; value on each '
+             'row == reference value + shift of the category of the row, per variable; exec(segmented_code()) gives '
+             'the same parameters and values; non-trivial if >= 2 variables, a reference other than the first '
+             'category, or a many-to-one mapping'),
     SubCheck('correlation', strat_correlation, judge_correlation,
              lambda s: f"choice set {s['choice_set']}, nests {[(n['kind'], n['value'], n['alts']) for n in s['nests']]}, names {s['names']}, parameters {s['overrides']}",
              dict(quick=500, thorough=15000),
